@@ -221,3 +221,28 @@ cJSON_bool cJSON_PrintPreallocated(cJSON *item, char *buffer, const int length, 
     return print_value(item, &p);
 }
 unsigned char print_bad_use(void) { return get_decimal_point(); }
+
+/* OUT8 (stale offset): the text is cut where the last token starts */
+char *bad_OUT8_detach_without_update(const cJSON *item)
+{
+    printbuffer p;
+    memset(&p, 0, sizeof(p));
+    p.buffer = (unsigned char*)malloc(64);
+    p.length = 64;
+    p.hooks = global_hooks;
+    if (p.buffer == NULL) { return NULL; }
+    if (!print_value(item, &p)) { free(p.buffer); return NULL; }
+    return (p.offset > 0) ? (char*)p.buffer : NULL;
+}
+char *good_detach_after_update(const cJSON *item)
+{
+    printbuffer p;
+    memset(&p, 0, sizeof(p));
+    p.buffer = (unsigned char*)malloc(64);
+    p.length = 64;
+    p.hooks = global_hooks;
+    if (p.buffer == NULL) { return NULL; }
+    if (!print_value(item, &p)) { free(p.buffer); return NULL; }
+    update_offset(&p);
+    return (p.offset > 0) ? (char*)p.buffer : NULL;
+}
